@@ -1552,6 +1552,10 @@ struct SymServer {
     port: u16,
     stop: Arc<AtomicBool>,
     abort: Arc<Mutex<Option<usize>>>,
+    /// while set, the second piece of the body is held back (the connection stays open)
+    hold: Arc<AtomicBool>,
+    /// another body to serve instead of the one given at start ("the file on the server was replaced")
+    body_override: Arc<Mutex<Option<Arc<Vec<u8>>>>>,
     handle: Option<std::thread::JoinHandle<()>>,
 }
 
@@ -1563,7 +1567,9 @@ impl SymServer {
         listener.set_nonblocking(true).ok()?;
         let stop = Arc::new(AtomicBool::new(false));
         let abort = Arc::new(Mutex::new(None::<usize>));
-        let (stop2, abort2) = (stop.clone(), abort.clone());
+        let hold = Arc::new(AtomicBool::new(false));
+        let body_override = Arc::new(Mutex::new(None::<Arc<Vec<u8>>>));
+        let (stop2, abort2, hold2, over2) = (stop.clone(), abort.clone(), hold.clone(), body_override.clone());
         let handle = std::thread::spawn(move || {
             while !stop2.load(Ordering::SeqCst) {
                 let Ok((mut conn, _)) = listener.accept() else {
@@ -1586,6 +1592,8 @@ impl SymServer {
                     let _ = conn.write_all(b"HTTP/1.1 404 Not Found\r\nContent-Length: 0\r\nConnection: close\r\n\r\n");
                     continue;
                 }
+                let body: Arc<Vec<u8>> = over2.lock().unwrap().clone().unwrap_or_else(|| body.clone());
+                let tail = tail.min(body.len());
                 let head = format!("HTTP/1.1 200 OK\r\nContent-Type: text/plain\r\nContent-Length: {}\r\nConnection: close\r\n\r\n", body.len());
                 let _ = conn.write_all(head.as_bytes());
                 let cut = body.len().saturating_sub(tail);
@@ -1605,13 +1613,17 @@ impl SymServer {
                         let _ = conn.write_all(&body[..cut]);
                         let _ = conn.flush();
                         std::thread::sleep(Duration::from_millis(30));
+                        let t = Instant::now();
+                        while hold2.load(Ordering::SeqCst) && !stop2.load(Ordering::SeqCst) && t.elapsed() < Duration::from_secs(40) {
+                            std::thread::sleep(Duration::from_millis(2));
+                        }
                         let _ = conn.write_all(&body[cut..]);
                         let _ = conn.flush();
                     }
                 }
             }
         });
-        Some(SymServer { port, stop, abort, handle: Some(handle) })
+        Some(SymServer { port, stop, abort, hold, body_override, handle: Some(handle) })
     }
 }
 
@@ -1850,17 +1862,18 @@ fn cancelwrite_line(fa: usize, fb: usize, seed: u64) -> String {
     format!("cancelwrite site=symindex a={fa} b={fb} isizea={} isizeb={} seed={seed}", ia.len(), ib.len())
 }
 
-/// `--c16-cancelwrite-child <sym dir> <symindex dir> <name> <breakpad id> <part path>`: creator A of the
-/// `.symindex` (`load_symbol_map` -> `ensure_symindex` -> `write_symindex` -> `create_file_cleanly`) on a runtime whose
-/// blocking pool has ONE thread. Dialogue with the parent (lines on stdin / stdout):
+/// `--c16-cancelwrite-child <site> <sym dir | server url> <symindex dir | cache dir> <name> <breakpad id> <part path>`:
+/// creator A of the `.symindex` (site `symindex`: `load_symbol_map` -> `ensure_symindex` -> `write_symindex` ->
+/// `create_file_cleanly`) or of a downloaded `.sym` (site `download`: `load_symbol_map` ->
+/// `downloader.rs::download_to_file` -> `create_file_cleanly`) on a runtime whose blocking pool has ONE thread. Dialogue with the parent (lines on stdin / stdout):
 ///   STARTED                     A is running (it will block on `dest.lock`, which the parent holds)
 ///   < BLOCK, > BLOCKED          the only blocking-pool thread is now occupied: the next `tokio::fs` operation queues
 ///   (parent releases the lock: A locks, opens `.part`, `write_all` hands its write to the pool, `flush().await` pends)
 ///   > CANCELLED <how> <len>     `.part` was seen, A's future has been dropped; <len> = size of `.part` now
 ///   < GO, > DONE                the pool thread is released: the queued write is executed; pool drained
 fn cancelwrite_child_main(args: &[String]) -> ! {
-    let (sym_dir, idx_dir, name, id, part) =
-        (PathBuf::from(&args[0]), PathBuf::from(&args[1]), args[2].clone(), args[3].clone(), PathBuf::from(&args[4]));
+    let (site, p1, p2, name, id, part) =
+        (args[0].clone(), args[1].clone(), PathBuf::from(&args[2]), args[3].clone(), args[4].clone(), PathBuf::from(&args[5]));
     let debug_id = debugid::DebugId::from_breakpad(&id).expect("debug id");
     let say = |s: &str| {
         let mut o = std::io::stdout().lock();
@@ -1877,7 +1890,11 @@ fn cancelwrite_child_main(args: &[String]) -> ! {
     let rt = tokio::runtime::Builder::new_multi_thread().worker_threads(2).max_blocking_threads(1).enable_all().build().unwrap();
     rt.block_on(async move {
         let a = tokio::spawn(async move {
-            let config = wholesym::SymbolManagerConfig::new().breakpad_symbol_dir(sym_dir).breakpad_symindex_cache_dir(idx_dir);
+            let config = if site == "download" {
+                wholesym::SymbolManagerConfig::new().breakpad_symbol_server(p1, p2)
+            } else {
+                wholesym::SymbolManagerConfig::new().breakpad_symbol_dir(PathBuf::from(p1)).breakpad_symindex_cache_dir(p2)
+            };
             let sm = wholesym::SymbolManager::with_config(config);
             sm.load_symbol_map(&name, debug_id).await.is_ok()
         });
@@ -1926,8 +1943,141 @@ fn load_local(sym_dir: PathBuf, idx_dir: PathBuf, name: &str, debug_id: debugid:
     })
 }
 
+fn load_via_server(url: String, cache: PathBuf, name: &str, debug_id: debugid::DebugId) -> bool {
+    let rt = tokio::runtime::Builder::new_current_thread().enable_all().build().unwrap();
+    rt.block_on(async move {
+        let config = wholesym::SymbolManagerConfig::new().breakpad_symbol_server(url, cache);
+        let sm = wholesym::SymbolManager::with_config(config);
+        match sm.load_symbol_map(name, debug_id).await {
+            Ok(map) => map.lookup(wholesym::LookupAddress::Relative(0x1004)).await.is_some(),
+            Err(_) => false,
+        }
+    })
+}
+
+fn cancelwrite_download_line(fa: usize, fb: usize, seed: u64) -> String {
+    let (_, _, ta, _, tb, _) = two_versions(fa, fb, seed);
+    format!("cancelwrite site=download a={fa} b={fb} isizea={} isizeb={} seed={seed}", ta.len(), tb.len())
+}
+
+/// the `cancelwrite` scenario on the downloader call site: A's download is cancelled in `stream.read().await`
+/// (the server holds the rest of the body back) with its first `write_all` queued; B downloads another version
+fn run_cancelwrite_download(ws: &[&str], stats: &mut Stats) -> Vec<String> {
+    use std::os::fd::AsRawFd;
+    let fa = kv_num(ws, "a", 300);
+    let fb = kv_num(ws, "b", 600);
+    let seed = kv_num(ws, "seed", 1) as u64;
+    let dir = work_dir();
+    let (name, debug_id, text_a, _, text_b, _) = two_versions(fa, fb, seed);
+    if kv_num(ws, "isizea", text_a.len()) != text_a.len() || kv_num(ws, "isizeb", text_b.len()) != text_b.len() || text_a == text_b {
+        let _ = std::fs::remove_dir_all(&dir);
+        return vec!["bad-op".into()];
+    }
+    let (body_a, body_b) = (Arc::new(text_a.into_bytes()), Arc::new(text_b.into_bytes()));
+    let cache = dir.join("cache");
+    let rel = format!("{name}/{}/{name}.sym", debug_id.breakpad());
+    let dest = cache.join(&rel);
+    std::fs::create_dir_all(dest.parent().unwrap()).unwrap();
+    let part_path = with_suffix(&dest, "part");
+    let Some(server) = SymServer::start(body_a.clone(), body_a.len() / 2) else {
+        let _ = std::fs::remove_dir_all(&dir);
+        return vec!["cancelwrite err:server".into()];
+    };
+    server.hold.store(true, Ordering::SeqCst);
+    let url = format!("http://127.0.0.1:{}/", server.port);
+    let lock_file = std::fs::OpenOptions::new().write(true).create(true).truncate(false).open(with_suffix(&dest, "lock")).unwrap();
+    unsafe {
+        libc::flock(lock_file.as_raw_fd(), libc::LOCK_EX);
+    }
+    let exp = body_b.clone();
+    let observer = Observer::start(dest.clone(), move |p| match std::fs::read(p) {
+        Ok(b) => {
+            if b == *exp {
+                Class::Complete(0)
+            } else {
+                Class::Bad
+            }
+        }
+        Err(_) => Class::Absent,
+    });
+    let classify = |p: &Path| -> &'static str {
+        match std::fs::read(p) {
+            Ok(b) if b == *body_b => "complete",
+            Ok(_) => "bad",
+            Err(_) => "absent",
+        }
+    };
+    let exe = std::env::current_exe().unwrap();
+    let mut cmd = Command::new(&exe);
+    cmd.arg("--c16-cancelwrite-child").arg("download").arg(&url).arg(&cache).arg(&name).arg(debug_id.breakpad().to_string()).arg(&part_path);
+    for v in ["http_proxy", "https_proxy", "HTTP_PROXY", "HTTPS_PROXY", "all_proxy", "ALL_PROXY"] {
+        cmd.env_remove(v);
+    }
+    cmd.env("NO_PROXY", "127.0.0.1,localhost").env("no_proxy", "127.0.0.1,localhost");
+    cmd.stdin(Stdio::piped()).stdout(Stdio::piped()).stderr(Stdio::null());
+    std::os::unix::process::CommandExt::process_group(&mut cmd, 0);
+    let mut child = cmd.spawn().expect("spawn cancelwrite child");
+    CHILD_GROUPS.lock().unwrap().push(child.id());
+    let mut to_child = child.stdin.take().unwrap();
+    let mut from_child = BufReader::new(child.stdout.take().unwrap());
+    let mut expect = |word: &str| -> Option<String> {
+        let mut line = String::new();
+        loop {
+            line.clear();
+            match from_child.read_line(&mut line) {
+                Ok(0) | Err(_) => return None,
+                Ok(_) if line.starts_with(word) => return Some(line.trim().to_string()),
+                Ok(_) => {}
+            }
+        }
+    };
+    let mut how = "lost".to_string();
+    let mut part_len = "-1".to_string();
+    let (mut b_ok, mut after_b) = (false, "absent");
+    if expect("STARTED").is_some() {
+        let t = Instant::now();
+        while flock_threads_of(child.id()) == 0 && t.elapsed() < Duration::from_secs(30) {
+            std::thread::sleep(Duration::from_micros(500));
+        }
+        let _ = writeln!(to_child, "BLOCK");
+        if expect("BLOCKED").is_some() {
+            drop(lock_file);
+            if let Some(l) = expect("CANCELLED") {
+                let w: Vec<&str> = l.split_whitespace().collect();
+                how = w.get(1).unwrap_or(&"?").to_string();
+                part_len = w.get(2).unwrap_or(&"?").to_string();
+                // the file on the server is replaced; creator B downloads it in this process
+                *server.body_override.lock().unwrap() = Some(body_b.clone());
+                server.hold.store(false, Ordering::SeqCst);
+                b_ok = load_via_server(url.clone(), cache.clone(), &name, debug_id);
+                after_b = classify(&dest);
+                let _ = writeln!(to_child, "GO");
+                let _ = expect("DONE");
+            }
+        }
+    }
+    server.hold.store(false, Ordering::SeqCst);
+    let _ = child.kill();
+    let _ = child.wait();
+    let fin = classify(&dest);
+    let (n_obs, bad, _c) = observer.finish();
+    drop(server);
+    stats.add("cancelwrite_observations", n_obs);
+    stats.bump(&format!("cancelwrite_download_final_{fin}"));
+    let _ = std::fs::remove_dir_all(&dir);
+    vec![
+        format!("cancelwrite a={how} part_at_cancel={part_len}"),
+        format!("after_b lookup={} symindex={after_b}", if b_ok { "ok" } else { "err" }),
+        format!("observations bad={}", bad.min(1)),
+        format!("final symindex={fin}"),
+    ]
+}
+
 fn run_cancelwrite(ws: &[&str], stats: &mut Stats) -> Vec<String> {
     use std::os::fd::AsRawFd;
+    if kv(ws, "site") == Some("download") {
+        return run_cancelwrite_download(ws, stats);
+    }
     let fa = kv_num(ws, "a", 20);
     let fb = kv_num(ws, "b", 200);
     let seed = kv_num(ws, "seed", 1) as u64;
@@ -1972,7 +2122,7 @@ fn run_cancelwrite(ws: &[&str], stats: &mut Stats) -> Vec<String> {
     };
     let exe = std::env::current_exe().unwrap();
     let mut cmd = Command::new(&exe);
-    cmd.arg("--c16-cancelwrite-child").arg(&sym_dir).arg(&idx_dir).arg(&name).arg(debug_id.breakpad().to_string()).arg(&part_path);
+    cmd.arg("--c16-cancelwrite-child").arg("symindex").arg(&sym_dir).arg(&idx_dir).arg(&name).arg(debug_id.breakpad().to_string()).arg(&part_path);
     cmd.stdin(Stdio::piped()).stdout(Stdio::piped()).stderr(Stdio::null());
     std::os::unix::process::CommandExt::process_group(&mut cmd, 0);
     let mut child = cmd.spawn().expect("spawn cancelwrite child");
@@ -2145,6 +2295,7 @@ impl Prop for C16 {
         }
         // (f) a creator cancelled while a write of its tokio::fs::File is in flight (shorter / longer than the next one)
         push("cancelwrite-shorter".into(), cancelwrite_line(20, 200, next_seed()));
+        push("cancelwrite-download".into(), cancelwrite_download_line(300, 700, next_seed()));
         if tier == Tier::Thorough {
             push("cancelwrite-longer".into(), cancelwrite_line(300, 30, next_seed()));
         }
@@ -2174,7 +2325,7 @@ impl Prop for C16 {
         }
         if tier == Tier::Thorough && rng.chance(1, 500) {
             let (a, b) = if rng.chance(1, 2) { (rng.range(5, 60), rng.range(100, 400)) } else { (rng.range(100, 400), rng.range(5, 60)) };
-            return vec![cancelwrite_line(a as usize, b as usize, seed)];
+            return vec![if rng.chance(1, 2) { cancelwrite_line(a as usize, b as usize, seed) } else { cancelwrite_download_line(a as usize + 100, b as usize + 100, seed) }];
         }
         if rng.chance(1, 30) {
             let what = *rng.pick(&["none", "fsize-first", "fsize-last", "fsize-last", "fsize-lastbyte", "fsize-exact", "abort-first", "abort-last"]);
